@@ -18,6 +18,7 @@ write that signal (`wire_set`); they run on the effects build only (the forwardi
 `ssr`; the plain build must answer `bad_op`).  For those a tick is not the identity: it delivers a changed wire.  Every
 observation of a wired sub-context is judged by `WiredOracle`, a property oracle that does not use the Lean model (a
 disagreement is a VIOLATION), and compared with the model (a disagreement with the model only is a broken correspondence)."""
+import html as _html
 from .common import *
 
 RULE = ("every sequence is run on BOTH builds of the harness (plain `ssr`: effects inert; `effects`: Effect/RenderEffect run natively on "
@@ -47,13 +48,15 @@ RULE = ("every sequence is run on BOTH builds of the harness (plain `ssr`: effec
         "observations of wired sub-contexts are judged by the model-independent WiredOracle: observed in {locale of the most recent set* on it "
         "(else its creation value), value of its wire at the most recent tick (else at creation)} and equal to it when the two agree")
 
-KINDS = ["t", "t_string", "tu_string", "t_display", "td_string", "t_plural"]
+KINDS = ["t", "t_string", "tu_string", "t_display", "td_string", "t_plural", "t_format"]
 PREFIX = {0: "hello_", 1: "inner_", 2: "leaf_"}
 
 
-MEMO_KINDS = ["locale", "t_string", "td_string", "t_display", "t_plural"]
+MEMO_KINDS = ["locale", "t_string", "td_string", "t_display", "t_plural", "t_format"]
 # CLDR cardinal category of 0 (the count the harness gives to `t_plural!`): `one` in French, `other` in English and German
 CAT0 = {"en": "other", "en-US": "other", "de": "other", "fr": "one", "fr-CA": "one"}
+FMT0 = {}      # locale name -> what a `t_format!(ctx, 1234567.5, formatter: number)` accessor shows there (read from the harness: td_format_string!)
+TABLES = {"plural0": CAT0, "fmt0": FMT0}
 
 
 def gen_sequence(rng, names, maxlen, tracked_only=False, wired=False):
@@ -339,7 +342,7 @@ def corpus(names):
     for d in range(12):
         s.append({"op": "sub", "parent": d, "initial": None})
     for d in range(13):
-        s.append({"op": "make_closure", "view": d, "kind": KINDS[d % 5]})
+        s.append({"op": "make_closure", "view": d, "kind": KINDS[d % len(KINDS)]})
     for d in range(13):
         s.append({"op": "set" if d % 2 else "set_untracked", "view": d, "locale": names[d % len(names)]})
         for e in range(13):
@@ -351,7 +354,7 @@ def corpus(names):
     for d in range(9):
         s.append({"op": "scope", "view": d})
     for d in range(10):
-        s.append({"op": "make_closure", "view": d, "kind": KINDS[(d + 2) % 5]})
+        s.append({"op": "make_closure", "view": d, "kind": KINDS[(d + 2) % len(KINDS)]})
     for d in range(10):
         s.append({"op": "set_untracked" if d % 3 == 0 else "set", "view": d, "locale": names[(d + 1) % len(names)]})
         for e in range(10):
@@ -591,6 +594,8 @@ def impl_obs(step, o, levels, idx, mlevels=None):
         text = o["text"]
         if kind == "t_plural":
             return {"plural0": text}, None
+        if kind == "t_format":
+            return {"fmt0": _html.unescape(text)}, None
         if kind == "locale":
             if text not in idx:
                 return {"text": text}, f"memo over get_locale() returned {text!r}"
@@ -624,6 +629,8 @@ def impl_obs(step, o, levels, idx, mlevels=None):
         text = o["text"]
         if kind == "t_plural":
             return {"plural0": text}, None
+        if kind == "t_format":
+            return {"fmt0": _html.unescape(text)}, None
         if not text.startswith(pre) or text[len(pre):] not in idx:
             return {"text": text}, f"closure rendered {text!r}, not a {pre}<locale> text"
         return {"locale": idx[text[len(pre):]]}, None
@@ -709,16 +716,17 @@ def judge(s, r, m, names, idx):
     for k, (st, o) in enumerate(zip(s, r["obs"])):
         io, err = impl_obs(st, o, levels, idx, mlevels)
         so, mo = m["spec"][k], m["model"][k]
-        if isinstance(io, dict) and "plural0" in io:
-            # `t_plural!` accessors show the plural category of 0 in the locale the spec / the model says is current
-            so = {"plural0": CAT0[names[so["locale"]]]} if isinstance(so, dict) and "locale" in so else so
-            mo = {"plural0": CAT0[names[mo["locale"]]]} if isinstance(mo, dict) and "locale" in mo else mo
+        tk = next((t for t in TABLES if isinstance(io, dict) and t in io), None)
+        if tk:
+            # `t_plural!` / `t_format!` accessors show the plural category of 0 / the formatted number in the locale the spec / the model says is current
+            so = {tk: TABLES[tk][names[so["locale"]]]} if isinstance(so, dict) and "locale" in so else so
+            mo = {tk: TABLES[tk][names[mo["locale"]]]} if isinstance(mo, dict) and "locale" in mo else mo
         w = oracle.step(st)
         if w is not None and not err:
             if w[0] == "wired":
                 allowed = sorted({w[1], w[2]})
-                if "plural0" in io:
-                    ok = io["plural0"] in {CAT0[names[l]] for l in allowed}
+                if tk:
+                    ok = io[tk] in {TABLES[tk][names[l]] for l in allowed}
                 else:
                     ok = io.get("locale") in allowed
                 if not ok:
@@ -953,7 +961,7 @@ def wired_stats(steps, idx):
     return out
 
 
-def selftest(bins):
+def selftest(bins, ctx=None):
     """effects must run in the effects build and must not in the plain one (else the two builds test the same thing)"""
     ran = {}
     for b, binp in bins:
@@ -978,8 +986,15 @@ def selftest(bins):
                  {"op": "get", "view": 0}]
         (r,), crash = run_lines(binp, [req_of(probe)])
         if b == "effects":
-            if crash or "obs" not in r or r["obs"][-1] != {"locale": "de"}:
-                raise HarnessError(f"effects build of ctx_h: a written wire is not delivered at the tick: {r!r} {crash!r}")
+            if crash or "obs" not in r:
+                raise HarnessError(f"effects build of ctx_h: wired operations not answered: {r!r} {crash!r}")
+            if r["obs"][-1] != {"locale": "de"} and ctx is not None:
+                # the harness answered: it is the library that does not deliver the wire (the property's own exception clause: a wired
+                # signal is the one way a sub-context's locale is changed from outside)
+                report_violation(ctx, "wired:not-delivered@effects", {
+                    "case": {"ops": probe}, "expected_by_spec": {"locale": "de"}, "implementation": r["obs"][-1],
+                    "why": "a sub-context created with a wired initial-locale signal follows that signal: after the signal was set and effects ran it shows the new value",
+                    "harness": "ctx_h (effects build)"})
         elif crash or "bad_op" not in r:
             raise HarnessError(f"plain build of ctx_h accepts wired operations: {r!r} {crash!r}")
     return ran
@@ -1003,9 +1018,10 @@ def run(ctx):
     if bins is None:
         finish_broken(ctx, "harness does not build; nothing could be run")
         return
-    ctx.extra["effects_selftest"] = selftest(bins)
+    ctx.extra["effects_selftest"] = selftest(bins, ctx)
     (loc,), _ = run_lines(bins[0][1], [{"op": "locales"}])
     names = [l["name"] for l in loc["locales"]]
+    FMT0.update({l["name"]: l["fmt_number"] for l in loc["locales"]})
     idx = {n: i for i, n in enumerate(names)}
     rng = ctx.rng
     seqs, modes = [], []
@@ -1065,6 +1081,7 @@ def replay(ctx, payload):
     selftest(bins)
     (loc,), _ = run_lines(bins[0][1], [{"op": "locales"}])
     names = [l["name"] for l in loc["locales"]]
+    FMT0.update({l["name"]: l["fmt_number"] for l in loc["locales"]})
     idx = {n: i for i, n in enumerate(names)}
     evaluate(ctx, bins, names, idx, [payload["steps"]], record=False)
     print(json.dumps({"steps": len(payload["steps"]), "violates": bool(ctx.violations)}))
